@@ -324,10 +324,16 @@ class FetchAtt:
     ####################################################################
     #
     def _single_section(
-        self, msg: Message | EmailMessage, section: int | str
+        self,
+        msg: Message | EmailMessage,
+        section: int | str,
+        top_level: bool = False,
     ) -> bytes:
         """
         Flatten message text from single top level section.
+
+        `top_level` is True when `msg` is the message itself and not one of
+        its body parts.
         """
         match section:
             case int():
@@ -387,12 +393,14 @@ class FetchAtt:
                         #
                         return msg_headers_as_bytes(msg)
                     case "HEADER":
-                        # if the content type is message/rfc822 then to get the
-                        # headers we need to use the first sub-part of this
-                        # message.
+                        # if this is a body part whose content type is
+                        # message/rfc822 then to get the headers we need to
+                        # use the first sub-part of this message. (BODY[HEADER]
+                        # of the message itself is always its own header.)
                         #
                         if (
-                            msg.is_multipart()
+                            not top_level
+                            and msg.is_multipart()
                             and msg.get_content_type() == "message/rfc822"
                         ):
                             return msg_headers_as_bytes(
@@ -416,13 +424,16 @@ class FetchAtt:
     ####################################################################
     #
     def _body(
-        self, msg: Message | EmailMessage, section: None | list[int | str]
+        self,
+        msg: Message | EmailMessage,
+        section: None | list[int | str],
+        top_level: bool = False,
     ) -> bytes:
         if not section:
             return msg_as_bytes(msg)
 
         if len(section) == 1:
-            return self._single_section(msg, section[0])
+            return self._single_section(msg, section[0], top_level=top_level)
 
         if isinstance(section[0], int):
             # We have an integer sub-section. This means that we
@@ -455,7 +466,7 @@ class FetchAtt:
         Fetch the appropriate section of the message, flatten into a string
         and return it to the user.
         """
-        msg_text = self._body(msg, section)
+        msg_text = self._body(msg, section, top_level=True)
 
         # We need to always terminate with crlf. (Unless there is nothing to
         # terminate: the TEXT of a message that has no body is empty.)
